@@ -36,6 +36,10 @@ impl<T: Qcow2IoOps> Qcow2Dev<T> {
         let info = &self.info;
         let cluster_size = info.cluster_size() as u64;
 
+        if info.is_read_only() {
+            return Err("discard: discard on read-only image".into());
+        }
+
         if len == 0 {
             return Ok(());
         }
